@@ -196,6 +196,10 @@ def build_target(target):
     key = h.hexdigest()[:24]
     out = os.path.join(CACHE, "bin", key, target["name"])
     if os.path.exists(out):
+        try:
+            os.utime(os.path.dirname(out))  # recently used
+        except OSError:
+            pass
         return out
     lock = _locked(out)
     try:
@@ -228,8 +232,24 @@ def build_target(target):
     return out
 
 
+def prune_cache(keep=160):
+    """binaries are keyed by tree content: every edited tree (mutation work) leaves a set behind.
+    Keep the most recently used ones."""
+    root = os.path.join(CACHE, "bin")
+    try:
+        dirs = [os.path.join(root, d) for d in os.listdir(root)]
+    except OSError:
+        return
+    if len(dirs) <= keep + 40:
+        return
+    dirs.sort(key=lambda d: os.path.getmtime(d), reverse=True)
+    for d in dirs[keep:]:
+        shutil.rmtree(d, ignore_errors=True)
+
+
 def build_all(targets):
     """targets: list of target dicts -> {name: path}"""
+    prune_cache()
     for t in targets:
         if t.get("prebuild"):
             t["prebuild"](t)
